@@ -386,6 +386,12 @@ def stopLoop (cfg : Cfg) (s : St) (err : Option GErr) (user : Bool) : Out :=
 def stopCall (cfg : Cfg) (s : St) (err : Option GErr) (user : Bool) : Out :=
   stopLoop cfg (if s.started && !s.stopping then { s with stopDraining := true } else s) err user
 
+/-- `ConsumerGroup.stop()` called by the application (no `errback_result`): while an earlier `stop()`
+    is still shutting the consumers down (`_stop_draining` set, `Coordinator.stop` not begun) the call
+    is refused with `RestopError` — that stop leaves the group when the consumers are done. -/
+def userStop (cfg : Cfg) (s : St) : Out :=
+  if s.stopDraining && !s.stopping then (s, [.stopFired true]) else stopCall cfg s none true
+
 /-- `rejoin_after_error(failure)` -/
 def rejoinAfterError (cfg : Cfg) (s : St) (e : GErr) : Out :=
   let r := rejoinCore cfg s e
@@ -464,7 +470,7 @@ def step (cfg : Cfg) (s : St) : Ev → Out
     -- already started, or stopped for good (`_stopping` is never reset; `protocol = None`)
     if s.started || s.stopping then (s, [.raised "RestartError"])
     else joinAndSync { s with started := true, startResult := none }
-  | .stop => stopCall cfg s none true
+  | .stop => userStop cfg s
   | .coordDone r =>
     if s.jpc != .coordLookup then (s, [.badOp]) else
     match r with
